@@ -220,8 +220,8 @@ def scan_program(pid, prog, answers):
     return out
 
 
-def oracle(pid, ctx, stream_prefix="ledger"):
-    """scan every impl answer file of this run (written by step 3 of ./check) with the property oracle"""
+def oracle(pid, ctx, modes, stream_prefix="ledger"):
+    """scan the impl answer files of this run (written by step 3 of ./check; `modes` = the modes of this tier) with the property oracle"""
     build = ctx["build"]
     by_key = {}
     stats = {"programs_scanned": 0, "fault_runs": 0, "faults_by_step": {}, "ops_by_tag": {}, "outcomes": {}}
@@ -233,6 +233,8 @@ def oracle(pid, ctx, stream_prefix="ledger"):
         if not os.path.exists(progf):
             continue
         mode = tagname.split(".")[1]
+        if mode not in modes:
+            continue   # left over from a run of the other tier
         P = split_programs(open(progf).read().split("\n"))
         A = split_programs(open(os.path.join(build, f)).read().split("\n"))
         for p, a in zip(P, A):
